@@ -341,7 +341,8 @@ def one_run(ctx, run, ops=None, trace=None, entry=None, preempt='gen'):
         preempt = [pre_p, f'{seed}:{run}'] if pre_p else None
     if ops is None:
         ops = histories.gen_history(wl, m, n_ops, reader_openers=histories.READER_OPENERS_C07,
-                                    emu_openers=histories.EMU_OPENERS_C07, xarray_ok=xr_ok, flavour=flavour)
+                                    emu_openers=histories.EMU_OPENERS_C07, xarray_ok=xr_ok, flavour=flavour,
+                                    faults=wl.random() < 0.2)
     fm = FileModel(e['data'], m)
     chooser = core.ReplayChooser(trace) if trace is not None else \
         core.make_chooser(policy, core.stream(seed, run, 'schedule'), est_steps=300)
@@ -356,6 +357,9 @@ def one_run(ctx, run, ops=None, trace=None, entry=None, preempt='gen'):
             return
         if op[0] == 'open':
             gen[op[1]] = gen.get(op[1], 0) + 1
+        if op[0] == 'fcall' and op[3][1] == 'stall' and out[0] == 'ok':
+            op = ['call', op[1], op[2]]       # storage answered in full, only late: the accounting applies as ever
+            counts['calls_with_a_stalled_request'] += 1
         if op[0] == 'fcall':
             state['warm'].add((op[1], gen.get(op[1], 0), route_of(op[2])))
             state['warm'].add((op[1], gen.get(op[1], 0)))
@@ -395,7 +399,7 @@ def one_run(ctx, run, ops=None, trace=None, entry=None, preempt='gen'):
         found.append((len(ops) - 1, f'history-{r.status}', f'history execution ended with {r.status}'))
     if found:
         i, v, what = found[0]
-        name = ops[i][2][0] if ops[i][0] == 'call' else ops[i][0]
+        name = ops[i][2][0] if ops[i][0] in ('call', 'fcall') else ops[i][0]
         rec['violation'] = {'signature': f"{m['layout']}|{m['kind']}|{name}|{v}", 'what': what, 'file': e['name'],
                             'spec': e['spec'], 'ops': ops[:i + 1], 'trace': list(r.sched.trace), 'index': i,
                             'preempt': preempt}
